@@ -354,8 +354,7 @@ func (W) Exec(p *world.Plan, env *world.Env) {
 					if pv != nil || err != nil {
 						if !faults {
 							s.clearInflight(w, false)
-							env.Res.At = at
-							env.Fail("mem/write-failed", "WriteTo failed without an injected fault: %v %v", pv, err)
+							env.FailAt(at, "mem/write-failed", "WriteTo failed without an injected fault: %v %v", pv, err)
 						}
 						// injected failure: all-old or all-new, never a mixture
 						if s.liveEquals(abs, data) {
@@ -364,32 +363,27 @@ func (W) Exec(p *world.Plan, env *world.Env) {
 							s.clearInflight(w, false)
 						} else {
 							s.clearInflight(w, false)
-							env.Res.At = at
-							env.Fail("mem/torn-write", "after a failed WriteTo the target range holds a mixture of old and new bytes")
+							env.FailAt(at, "mem/torn-write", "after a failed WriteTo the target range holds a mixture of old and new bytes")
 						}
 						env.Probe("write_failed_under_fault")
 					} else {
 						if !s.liveEquals(abs, data) {
 							// under an injected RWX denial goom's fallback path must still land the data
 							s.clearInflight(w, false)
-							env.Res.At = at
-							env.Fail("mem/data-mismatch", "after WriteTo the target range does not hold the data")
+							env.FailAt(at, "mem/data-mismatch", "after WriteTo the target range does not hold the data")
 						}
 						s.clearInflight(w, true)
 					}
 					// own segment exactly as modelled, nothing outside the arena touched
 					if bad := s.compare(segLo, segLo+seg); bad >= 0 {
-						env.Res.At = at
-						env.Fail("mem/stray-arena-byte", "arena byte %d (outside the written range [%d,%d)) differs from the model", bad, abs, abs+ln)
+						env.FailAt(at, "mem/stray-arena-byte", "arena byte %d (outside the written range [%d,%d)) differs from the model", bad, abs, abs+ln)
 					}
 					if msg := img.Check([]simenv.Region{arenaRegion}); msg != "" {
-						env.Res.At = at
-						env.Fail("image/stray", "%s", msg)
+						env.FailAt(at, "image/stray", "%s", msg)
 					}
 					if !faults {
 						if msg := img.CheckPages(simcore.InRWXWindow()); msg != "" {
-							env.Res.At = at
-							env.Fail("pages/writable", "%s", msg)
+							env.FailAt(at, "pages/writable", "%s", msg)
 						}
 					}
 					if (abs%pageSize)+ln > pageSize || (int(s.base)+abs)/pageSize != (int(s.base)+abs+ln-1)/pageSize {
@@ -416,16 +410,14 @@ func (W) Exec(p *world.Plan, env *world.Env) {
 						simcore.NoteCallerOnRWX()
 						env.Check()
 						if msg := img.CheckPages(true); msg != "" {
-							env.Res.At = fmt.Sprintf("caller task %d op#%d", ti, i)
-							env.Fail("pages/not-executable-midwrite", "%s", msg)
+							env.FailAt(fmt.Sprintf("caller task %d op#%d", ti, i), "pages/not-executable-midwrite", "%s", msg)
 						}
 					}
 					a, b, _ := s.cellValues(c)
 					got := callCode(s.base + uintptr(c*asm.CellSize))
 					env.Check()
 					if got != a && got != b {
-						env.Res.At = fmt.Sprintf("caller task %d op#%d", ti, i)
-						env.Fail("mem/cell-value", "arena cell %d returned %d, want %d (or %d while its write is in flight)", c, got, a, b)
+						env.FailAt(fmt.Sprintf("caller task %d op#%d", ti, i), "mem/cell-value", "arena cell %d returned %d, want %d (or %d while its write is in flight)", c, got, a, b)
 					}
 					env.Op()
 				}
@@ -497,8 +489,7 @@ func execSweep(p *world.Plan, env *world.Env, arenaRegion simenv.Region) {
 			if pv != nil || err != nil || g == nil {
 				env.Probe("sweep_refused")
 				if msg := img.Check(base); msg != "" {
-					env.Res.At = at
-					env.Fail("mem/refused-but-written", "patch of %s was refused (%v %v) but the image changed: %s", op.S, pv, err, msg)
+					env.FailAt(at, "mem/refused-but-written", "patch of %s was refused (%v %v) but the image changed: %s", op.S, pv, err, msg)
 				}
 				env.Op()
 				continue
@@ -506,20 +497,16 @@ func execSweep(p *world.Plan, env *world.Env, arenaRegion simenv.Region) {
 			g.Apply()
 			env.Check()
 			if ext < 13 {
-				env.Res.At = at
-				env.Fail("mem/too-short-accepted", "%s has only %d bytes before the next symbol but the 13-byte jump was written", op.S, ext)
+				env.FailAt(at, "mem/too-short-accepted", "%s has only %d bytes before the next symbol but the 13-byte jump was written", op.S, ext)
 			}
 			if msg := img.Check(append(base, simenv.Region{Addr: entry, Len: 13, Kind: simenv.RegionJump, Name: op.S})); msg != "" {
-				env.Res.At = at
-				env.Fail("image/stray", "after patching %s: %s", op.S, msg)
+				env.FailAt(at, "image/stray", "after patching %s: %s", op.S, msg)
 			}
 			if img.CheckJump(entry) != "" {
-				env.Res.At = at
-				env.Fail("mem/jump-missing", "after Apply the entry of %s does not hold the jump: %s", op.S, img.CheckJump(entry))
+				env.FailAt(at, "mem/jump-missing", "after Apply the entry of %s does not hold the jump: %s", op.S, img.CheckJump(entry))
 			}
 			if msg := img.CheckPages(false); msg != "" {
-				env.Res.At = at
-				env.Fail("pages/writable", "after patching %s: %s", op.S, msg)
+				env.FailAt(at, "pages/writable", "after patching %s: %s", op.S, msg)
 			}
 			env.Probe("sweep_patched")
 			if (entry & 4095) == 4096-32 {
@@ -531,12 +518,10 @@ func execSweep(p *world.Plan, env *world.Env, arenaRegion simenv.Region) {
 			g.UnpatchWithLock()
 			env.Check()
 			if msg := img.Check(base); msg != "" {
-				env.Res.At = at
-				env.Fail("image/not-restored", "after unpatching %s: %s", op.S, msg)
+				env.FailAt(at, "image/not-restored", "after unpatching %s: %s", op.S, msg)
 			}
 			if msg := img.CheckPages(false); msg != "" {
-				env.Res.At = at
-				env.Fail("pages/writable", "after unpatching %s: %s", op.S, msg)
+				env.FailAt(at, "pages/writable", "after unpatching %s: %s", op.S, msg)
 			}
 			env.T("ptr %s ok", op.S)
 			env.Op()
